@@ -296,6 +296,11 @@ func panicSites(p *Program, fn *ssa.Function, unproven map[string]string) (sites
 				if _, isC := x.Len.(*ssa.Const); !isC {
 					sites = append(sites, PanicSite{fn, in, "make", "make with length " + T(x.Len).String(), pos(x)})
 				}
+			case *ssa.Call:
+				// library functions that panic on a malformed argument (documented precondition)
+				if n := CalleeName(x.Common()); (n == "crypto/ed25519.Verify" || n == "golang.org/x/crypto/ed25519.Verify") && len(x.Call.Args) == 3 {
+					sites = append(sites, PanicSite{fn, in, "libpre", "crypto/ed25519.Verify panics unless len(publicKey) == 32: " + T(x.Call.Args[0]).String(), pos(x)})
+				}
 			case *ssa.Panic:
 				sites = append(sites, PanicSite{fn, in, "panic", "explicit panic(" + T(x.X).String() + ")", pos(x)})
 			}
